@@ -91,28 +91,154 @@ Definition spec_keys (p : policy) (own peer : list byte) : key_set :=
   let stream := P_hash (mac_of h) peer own n in
   (firstn s stream, firstn e (skipn s stream), firstn b (skipn (s + e) stream)).
 
+(* ---------- hash.rs hmac_vec: the key handed to OpenSSL ---------- *)
+(* `let key = if key.is_empty() { &[0u8][..] } else { key }` (fix: HMAC / P_SHA key derivation
+   panicked on an empty secret).  [mac_impl] is the MAC the code computes; Proofs.v shows it is
+   the RFC 2104 HMAC of the ORIGINAL key for every key, the empty one included. *)
+Definition hmac_vec_key (key : list byte) : list byte :=
+  match key with [] => [0%N] | _ => key end.
+Definition mac_impl (h : hash_alg) (key msg : list byte) : list byte := mac_of h (hmac_vec_key key) msg.
+Definition slice_impl (p : policy) (secret seed : list byte) (s : Z * list Z) : list byte :=
+  prf (mac_impl (src_hash p)) secret seed (src_len p (fst s))
+      (fold_left Nat.add (map (src_len p) (snd s)) O).
+Definition make_keys_impl (p : policy) (secret seed : list byte) : key_set :=
+  match map (slice_impl p secret seed) src_slices with
+  | [a; b; c] => (a, b, c)
+  | _ => ([], [], [])
+  end.
+
+(* ---------- SecureChannel as a state machine (core/comms/secure_channel.rs) ---------- *)
+(* The fields that take part in key derivation.  A channel lives through several
+   OpenSecureChannel exchanges (issue, then renewals): each one sets the policy and both nonces
+   again and calls derive_keys again on the SAME object. *)
+Record chan := mk_chan {
+  ch_policy : policy;
+  ch_local : list byte;                 (* local_nonce *)
+  ch_remote : list byte;                (* remote_nonce *)
+  ch_lkeys : option key_set;            (* local_keys *)
+  ch_rkeys : option key_set             (* remote_keys *)
+}.
+(* SecureChannel::new followed by set_security_policy(p) (a new channel has policy None, with
+   which nothing here can be called without the "Invalid policy" panic) *)
+Definition chan_new (p : policy) : chan := mk_chan p [] [] None None.
+Definition set_policy (p : policy) (c : chan) : chan :=
+  mk_chan p (ch_local c) (ch_remote c) (ch_lkeys c) (ch_rkeys c).
+(* set_local_nonce / set_remote_nonce: clear, then extend *)
+Definition set_local (n : list byte) (c : chan) : chan :=
+  mk_chan (ch_policy c) n (ch_remote c) (ch_lkeys c) (ch_rkeys c).
+Definition set_remote (n : list byte) (c : chan) : chan :=
+  mk_chan (ch_policy c) (ch_local c) n (ch_lkeys c) (ch_rkeys c).
+Definition src_nonce_length (p : policy) : nat := Z.to_nat (src_nonce_len p).
+(* set_remote_nonce_from_byte_string for a policy other than None: a null byte string or one of
+   another length than secure_channel_nonce_length() is BadNonceInvalid and changes nothing.
+   Status 0 = Ok, 1 = Err *)
+Definition set_remote_bs (n : option (list byte)) (c : chan) : Z * chan :=
+  match n with
+  | Some v => if Nat.eqb (length v) (src_nonce_length (ch_policy c)) then (0%Z, set_remote v c) else (1%Z, c)
+  | None => (1%Z, c)
+  end.
+(* derive_keys on the channel: both key sets are replaced *)
+Definition chan_derive (c : chan) : chan :=
+  mk_chan (ch_policy c) (ch_local c) (ch_remote c)
+          (Some (make_keys_impl (ch_policy c) (ch_remote c) (ch_local c)))
+          (Some (make_keys_impl (ch_policy c) (ch_local c) (ch_remote c))).
+(* the keys the channel USES: signing_key() / encryption_keys() read local_keys,
+   verification_key() / decryption_keys() read remote_keys (each unwraps: only defined when both
+   are present).  Result: (keys that secure outgoing messages, keys that verify incoming ones) *)
+Definition chan_used (c : chan) : option (key_set * key_set) :=
+  match ch_lkeys c, ch_rkeys c with
+  | Some (ls, le, li), Some (rs, re, ri) => Some ((ls, le, li), (rs, re, ri))
+  | _, _ => None
+  end.
+
 (* ---------- correspondence interface ---------- *)
 Open Scope Z_scope.
-Record case := mk_case { c_policy : policy; c_client_nonce : list Z; c_server_nonce : list Z }.
+(* One OpenSecureChannel exchange on a client-role and a server-role channel: the policy, the
+   client's and the server's nonce, and how the peer's nonce reaches each side:
+   0 = set_remote_nonce, 1 = set_remote_nonce_from_byte_string, 2 = the same with a null string *)
+Record round := mk_round { r_policy : policy; r_client_nonce : list Z; r_server_nonce : list Z; r_mode : Z }.
+(* a history of exchanges on ONE pair of channels *)
+Record case := mk_case { c_rounds : list round }.
 
 Definition to_bytes (l : list Z) : list byte := map Z.to_N l.
 Definition of_bytes (l : list byte) : list Z := map Z.of_N l.
 Definition enc_set (k : key_set) : list Z :=
   let '(a, b, c) := k in
   [Z.of_nat (length a); Z.of_nat (length b); Z.of_nat (length c)] ++ of_bytes a ++ of_bytes b ++ of_bytes c.
+Definition enc_opt (k : option key_set) : list Z := match k with Some k => enc_set k | None => [-1] end.
+Definition enc_used (u : option (key_set * key_set)) : list Z :=
+  match u with Some (a, b) => enc_set a ++ enc_set b | None => [-1] end.
+(* what is observed of a channel: stored local keys, stored remote keys (hook verif_derived_keys),
+   and the keys the accessors hand to the signing / encrypting code (hook verif_used_keys) *)
+Definition obs_chan (c : chan) : list Z := enc_opt (ch_lkeys c) ++ enc_opt (ch_rkeys c) ++ enc_used (chan_used c).
 
-(* observable: client local, client remote, server local, server remote key sets *)
+Definition peer_nonce_in (mode : Z) (n : list byte) (c : chan) : Z * chan :=
+  if mode =? 0 then (0, set_remote n c)
+  else if mode =? 1 then set_remote_bs (Some n) c
+  else set_remote_bs None c.
+
+(* one exchange: policy, own nonce, peer nonce, and - as open_secure_channel does - derive_keys
+   only when the peer nonce was accepted *)
+Definition side_step (p : policy) (mode : Z) (own peer : list byte) (c : chan) : Z * chan :=
+  let c1 := set_local own (set_policy p c) in
+  let '(st, c2) := peer_nonce_in mode peer c1 in
+  (st, if st =? 0 then chan_derive c2 else c2).
+
+Fixpoint run_rounds (client server : chan) (rs : list round) : list Z :=
+  match rs with
+  | [] => []
+  | r :: rs' =>
+    let cn := to_bytes (r_client_nonce r) in let sn := to_bytes (r_server_nonce r) in
+    let '(stc, c') := side_step (r_policy r) (r_mode r) cn sn client in
+    let '(sts, s') := side_step (r_policy r) (r_mode r) sn cn server in
+    [stc; sts] ++ obs_chan c' ++ obs_chan s' ++ run_rounds c' s' rs'
+  end.
+
+(* the two channels after a history *)
+Fixpoint end_state (client server : chan) (rs : list round) : chan * chan :=
+  match rs with
+  | [] => (client, server)
+  | r :: rs' =>
+    let cn := to_bytes (r_client_nonce r) in let sn := to_bytes (r_server_nonce r) in
+    end_state (snd (side_step (r_policy r) (r_mode r) cn sn client))
+              (snd (side_step (r_policy r) (r_mode r) sn cn server)) rs'
+  end.
+
+Definition first_policy (rs : list round) : policy :=
+  match rs with r :: _ => r_policy r | [] => Basic128Rsa15 end.
 Definition run (c : case) : list Z :=
-  let cn := to_bytes (c_client_nonce c) in let sn := to_bytes (c_server_nonce c) in
-  let ck := derive_keys (c_policy c) cn sn in
-  let sk := derive_keys (c_policy c) sn cn in
-  enc_set (local_keys ck) ++ enc_set (remote_keys ck) ++ enc_set (local_keys sk) ++ enc_set (remote_keys sk).
+  run_rounds (chan_new (first_policy (c_rounds c))) (chan_new (first_policy (c_rounds c))) (c_rounds c).
 
-Definition spec (c : case) : list Z :=
-  let cn := to_bytes (c_client_nonce c) in let sn := to_bytes (c_server_nonce c) in
-  let client := spec_keys (c_policy c) cn sn in       (* secures what the client sends *)
-  let server := spec_keys (c_policy c) sn cn in       (* secures what the server sends *)
-  enc_set client ++ enc_set server ++ enc_set server ++ enc_set client.
+(* ---------- the property on a history, written on the Part 6 table and not on the channel ---------- *)
+Definition spec_nonce_length (p : policy) : nat := match p with Basic128Rsa15 => 16 | _ => 32 end%nat.
+(* does a side take the peer's nonce *)
+Definition accepts (p : policy) (mode : Z) (peer : list Z) : bool :=
+  (mode =? 0) || ((mode =? 1) && Nat.eqb (length peer) (spec_nonce_length p)).
+(* (keys that secure what this side sends, keys that verify what it receives), stored and used *)
+Definition enc_side (k : option (key_set * key_set)) : list Z :=
+  match k with
+  | Some (l, r) => enc_set l ++ enc_set r ++ enc_set l ++ enc_set r
+  | None => [-1; -1; -1]
+  end.
+(* After every exchange whose peer nonce a side accepted, that side holds exactly the keys of
+   Part 6 table 33 for THIS exchange's policy and nonces - whatever happened on the channel
+   before - and uses its own (client/server) keys to secure and the peer's to verify; a rejected
+   nonce leaves the keys as they were. *)
+Fixpoint spec_rounds (kc ks : option (key_set * key_set)) (rs : list round) : list Z :=
+  match rs with
+  | [] => []
+  | r :: rs' =>
+    let p := r_policy r in
+    let cn := to_bytes (r_client_nonce r) in let sn := to_bytes (r_server_nonce r) in
+    let client := spec_keys p cn sn in       (* secures what the client sends *)
+    let server := spec_keys p sn cn in       (* secures what the server sends *)
+    let ac := accepts p (r_mode r) (r_server_nonce r) in
+    let asv := accepts p (r_mode r) (r_client_nonce r) in
+    let kc' := if ac then Some (client, server) else kc in
+    let ks' := if asv then Some (server, client) else ks in
+    [if ac then 0 else 1; if asv then 0 else 1] ++ enc_side kc' ++ enc_side ks' ++ spec_rounds kc' ks' rs'
+  end.
+Definition spec (c : case) : list Z := spec_rounds None None (c_rounds c).
 
 Fixpoint list_eqb (a b : list Z) : bool :=
   match a, b with
@@ -124,4 +250,5 @@ Fixpoint list_eqb (a b : list Z) : bool :=
 Definition oracle (c : case) (out : list Z) : bool := list_eqb out (spec c).
 Definition known (c : case) : Z := 0.
 Definition valid (c : case) : Prop :=
-  Forall (fun b => 0 <= b < 256) (c_client_nonce c) /\ Forall (fun b => 0 <= b < 256) (c_server_nonce c).
+  Forall (fun r => Forall (fun b => 0 <= b < 256) (r_client_nonce r) /\ Forall (fun b => 0 <= b < 256) (r_server_nonce r))
+         (c_rounds c).
